@@ -355,7 +355,11 @@ func (g *commonGen) template(w *World, name string, b int) []Step {
 		return out
 	case "halfauth_settings":
 		// a cookie-authenticated (half-auth) session tries to change 2FA settings
-		out := []Step{{Kind: "login", B: b, A: a, Sec: pw(a), RM: true}, {Kind: "drop_session", B: b}, g.fill(w, "probe", b)}
+		out := []Step{{Kind: "login", B: b, A: a, Sec: pw(a), RM: true}, {Kind: "drop_session", B: b}}
+		if g.r.Bool() {
+			// otherwise the very first request the cookie authenticates is the sensitive one
+			out = append(out, g.fill(w, "probe", b))
+		}
 		for _, k := range []string{"totp_setup", "recovery_regen", "totp_remove", "sms_remove", "sms_setup"} {
 			if g.r.Bool() {
 				st := g.fill(w, k, b)
@@ -364,6 +368,38 @@ func (g *commonGen) template(w *World, name string, b int) []Step {
 			}
 		}
 		return out
+	case "relogin_after_idle":
+		// log in, stay idle around / beyond the threshold, log in again in the same browser
+		gap := durationsAround(g.r, c.ExpireAfter)
+		if g.r.Bool() {
+			gap = c.ExpireAfter + g.r.Dur(time.Second, c.ExpireAfter)
+		}
+		if gap < 0 {
+			gap = 0
+		}
+		if c.WholeSecondClock {
+			gap = gap.Round(time.Second)
+		}
+		who := a
+		if g.r.Chance(1, 4) {
+			who = g.otherAcct(w, a)
+		}
+		return []Step{{Kind: "login", B: b, A: a, Sec: pw(a)}, {Kind: "login", B: b, A: who, Sec: pw(who), Gap: gap},
+			{Kind: "probe", B: b, Gap: g.r.Dur(0, 2*time.Second).Round(time.Second), Str: map[string]string{"path": "/probe/open"}}}
+	case "oauth_stale_params":
+		// an abandoned start that asked to be remembered, then a plain start and its callback
+		prov := c.Providers[g.r.Intn(len(c.Providers))]
+		return []Step{{Kind: "oauth2_start", B: b, RM: true, Str: map[string]string{"provider": prov}},
+			{Kind: "oauth2_start", B: b, Str: map[string]string{"provider": prov}},
+			{Kind: "oauth2_callback", B: b, A: g.r.Intn(3), Sec: &SecretRef{Kind: "state", A: -1, Idx: -1}, Str: map[string]string{"provider": prov, "code": "fresh"}},
+			{Kind: "drop_session", B: b}, g.fill(w, "probe", b)}
+	case "forged_cookie":
+		// a well-formed cookie naming a real account that was never issued, while the token store misbehaves
+		st := g.fill(w, "probe", b)
+		if g.r.Bool() {
+			st.Fault = &FaultDirective{Site: "db.UseRememberToken", Index: 0, Kind: "err"}
+		}
+		return []Step{{Kind: "drop_session", B: b}, {Kind: "set_cookie", B: b, Sec: &SecretRef{Kind: "forged_rm", A: a, Idx: g.r.Intn(1000)}}, st}
 	case "idle_probe":
 		// be logged in, stay idle around the threshold, look at what downstream sees
 		out := []Step{}
